@@ -23,6 +23,7 @@ import (
 	"go/types"
 	"os"
 	"path/filepath"
+	"sort"
 	"strings"
 
 	"golang.org/x/tools/go/ast/astutil"
@@ -90,6 +91,27 @@ func Until(site string, t time.Time) time.Duration {
 	return time.Hour
 }
 
+// SharedPoint is called before and after every statement that mentions a package-level variable of the module which the
+// code can modify after initialisation (shared between the goroutines that serve queries and the one that executes
+// blocks). The harness installs it to switch between the two at exactly these points.
+var SharedPoint func(name string)
+
+func Shared(name string) {
+	if SharedPoint != nil {
+		SharedPoint(name)
+	}
+}
+
+// Globals lists, per package, pointers to every package-level variable of the module (filled by generated init functions):
+// the harness hashes what they point to before and after every step.
+var Globals = map[string]interface{}{}
+
+func RegisterGlobals(pkg string, vars map[string]interface{}) {
+	for n, p := range vars {
+		Globals[pkg+"."+n] = p
+	}
+}
+
 // Choose returns, for a map with n keys (presented in canonical sorted order) at the given site,
 // the permutation to iterate in; nil means canonical order. It is installed by the harness and
 // must be safe for concurrent use (it is keyed by goroutine there).
@@ -154,6 +176,7 @@ func main() {
 	}
 	overlay := map[string]string{}
 	var sites []siteInfo
+	gvars, suspects := sharedState(pkgs, &sites)
 	for _, p := range pkgs {
 		for _, e := range p.Errors {
 			fmt.Fprintln(os.Stderr, "package error:", e)
@@ -272,6 +295,9 @@ func main() {
 				changed = true
 				return true
 			})
+			if instrumentShared(p, f, suspects) {
+				changed = true
+			}
 			if !changed {
 				continue
 			}
@@ -292,6 +318,22 @@ func main() {
 			overlay[fname] = dst
 		}
 	}
+	for _, p := range pkgs {
+		names := gvars[p.PkgPath]
+		if len(names) == 0 || len(p.GoFiles) == 0 {
+			continue
+		}
+		sort.Strings(names)
+		var b bytes.Buffer
+		fmt.Fprintf(&b, "package %s\n\nimport verifhook %q\n\nfunc init() {\n\tverifhook.RegisterGlobals(%q, map[string]interface{}{\n", p.Name, hookPath, p.PkgPath)
+		for _, n := range names {
+			fmt.Fprintf(&b, "\t\t%q: &%s,\n", n, n)
+		}
+		b.WriteString("\t})\n}\n")
+		dst := filepath.Join(*out, "globals__"+strings.ReplaceAll(strings.TrimPrefix(p.PkgPath, "github.com/MinterTeam/mhub2/module/"), "/", "__")+".go")
+		os.WriteFile(dst, b.Bytes(), 0o644)
+		overlay[filepath.Join(filepath.Dir(p.GoFiles[0]), "zz_verif_globals.go")] = dst
+	}
 	hookFile := filepath.Join(*out, "verifhook.go")
 	os.WriteFile(hookFile, []byte(hookSrc), 0o644)
 	overlay[filepath.Join(*module, "x", "verifhook", "hook.go")] = hookFile
@@ -299,16 +341,257 @@ func main() {
 	os.WriteFile(filepath.Join(*out, "overlay.json"), ob, 0o644)
 	sb, _ := json.MarshalIndent(sites, "", " ")
 	os.WriteFile(filepath.Join(*out, "sites.json"), sb, 0o644)
-	n, nm, nc := 0, 0, 0
+	n, nm, nc, ng, nsus := 0, 0, 0, 0, 0
 	for _, s := range sites {
 		if s.Done {
 			n++
 		}
-		if s.Kind == "clock" {
+		switch s.Kind {
+		case "clock":
 			nc++
-		} else {
+		case "global":
+			ng++
+			if s.Done {
+				nsus++
+			}
+		default:
 			nm++
 		}
 	}
-	fmt.Printf("maprw: %d map-range sites, %d wall-clock/timer/randomness/goroutine sites, %d instrumented, %d files rewritten\n", nm, nc, n, len(overlay)-1)
+	fmt.Printf("maprw: %d map-range sites, %d wall-clock/timer/randomness/goroutine sites, %d package-level variables (%d modifiable after initialisation), %d instrumented, %d files rewritten\n", nm, nc, ng, nsus, n, len(overlay)-1)
+}
+
+
+func skipFile(name string) bool {
+	return strings.HasSuffix(name, "_test.go") || strings.HasSuffix(name, ".pb.go") || strings.HasSuffix(name, ".pb.gw.go")
+}
+
+// receiver types whose pointer-receiver methods do not change what a package-level variable of that type refers to in a way
+// another goroutine could observe half-done: registered errors, codecs, compiled regular expressions, synchronisation
+// primitives, cobra commands (client side only)
+var quietReceivers = []string{"github.com/cosmos/cosmos-sdk/types/errors.", "github.com/cosmos/cosmos-sdk/codec", "regexp.", "sync.", "sync/atomic.",
+	"github.com/spf13/cobra.", "github.com/cosmos/cosmos-sdk/x/params/types."}
+
+// rootVar returns the package-level variable an expression is rooted in (x, x.f, x[i], *x, pkg.x ...), or nil.
+func rootVar(info *types.Info, e ast.Expr) *types.Var {
+	for {
+		switch x := e.(type) {
+		case *ast.ParenExpr:
+			e = x.X
+		case *ast.StarExpr:
+			e = x.X
+		case *ast.IndexExpr:
+			e = x.X
+		case *ast.SliceExpr:
+			e = x.X
+		case *ast.SelectorExpr:
+			if id, ok := x.X.(*ast.Ident); ok {
+				if _, isPkg := info.Uses[id].(*types.PkgName); isPkg {
+					e = x.Sel
+					continue
+				}
+			}
+			e = x.X
+		case *ast.Ident:
+			if v, ok := info.Uses[x].(*types.Var); ok && v.Pkg() != nil && v.Parent() == v.Pkg().Scope() {
+				return v
+			}
+			return nil
+		default:
+			return nil
+		}
+	}
+}
+
+// sharedState lists the package-level variables of the module packages and decides which of them the code can modify after
+// initialisation: assigned to (or through), incremented, address taken, or receiver of a pointer-receiver method of a type
+// that is not known to be quiet - outside init functions. These are shared between the goroutines that serve queries and
+// the one that executes blocks.
+func sharedState(pkgs []*packages.Package, sites *[]siteInfo) (map[string][]string, map[*types.Var]string) {
+	gvars := map[string][]string{}
+	all := map[*types.Var]token.Position{}
+	for _, p := range pkgs {
+		for _, f := range p.Syntax {
+			fname := p.Fset.Position(f.Pos()).Filename
+			if skipFile(fname) {
+				continue
+			}
+			for _, d := range f.Decls {
+				gd, ok := d.(*ast.GenDecl)
+				if !ok || gd.Tok != token.VAR {
+					continue
+				}
+				for _, sp := range gd.Specs {
+					for _, id := range sp.(*ast.ValueSpec).Names {
+						if id.Name == "_" {
+							continue
+						}
+						if v, ok := p.TypesInfo.Defs[id].(*types.Var); ok {
+							all[v] = p.Fset.Position(id.Pos())
+							gvars[p.PkgPath] = append(gvars[p.PkgPath], id.Name)
+						}
+					}
+				}
+			}
+		}
+	}
+	why := map[*types.Var]string{}
+	mark := func(v *types.Var, reason string, pos token.Position) {
+		if v == nil {
+			return
+		}
+		if _, ours := all[v]; !ours {
+			return
+		}
+		if _, done := why[v]; !done {
+			why[v] = fmt.Sprintf("%s at %s:%d", reason, filepath.Base(pos.Filename), pos.Line)
+		}
+	}
+	for _, p := range pkgs {
+		for _, f := range p.Syntax {
+			fname := p.Fset.Position(f.Pos()).Filename
+			if skipFile(fname) {
+				continue
+			}
+			for _, d := range f.Decls {
+				fd, ok := d.(*ast.FuncDecl)
+				if !ok || fd.Body == nil || (fd.Recv == nil && fd.Name.Name == "init") {
+					continue
+				}
+				ast.Inspect(fd.Body, func(n ast.Node) bool {
+					switch x := n.(type) {
+					case *ast.AssignStmt:
+						if x.Tok != token.DEFINE {
+							for _, l := range x.Lhs {
+								mark(rootVar(p.TypesInfo, l), "assigned", p.Fset.Position(l.Pos()))
+							}
+						}
+					case *ast.IncDecStmt:
+						mark(rootVar(p.TypesInfo, x.X), "incremented", p.Fset.Position(x.Pos()))
+					case *ast.UnaryExpr:
+						if x.Op == token.AND {
+							mark(rootVar(p.TypesInfo, x.X), "address taken", p.Fset.Position(x.Pos()))
+						}
+					case *ast.CallExpr:
+						sel, ok := x.Fun.(*ast.SelectorExpr)
+						if !ok {
+							return true
+						}
+						se, ok := p.TypesInfo.Selections[sel]
+						if !ok || se.Kind() != types.MethodVal {
+							return true
+						}
+						fn, ok := se.Obj().(*types.Func)
+						if !ok {
+							return true
+						}
+						sig := fn.Type().(*types.Signature)
+						if sig.Recv() == nil {
+							return true
+						}
+						if _, ptr := sig.Recv().Type().(*types.Pointer); !ptr {
+							return true
+						}
+						rt := types.TypeString(sig.Recv().Type(), nil)
+						rt = strings.TrimPrefix(rt, "*")
+						for _, q := range quietReceivers {
+							if strings.HasPrefix(rt, q) {
+								return true
+							}
+						}
+						mark(rootVar(p.TypesInfo, sel.X), "receiver of "+rt+"."+fn.Name(), p.Fset.Position(x.Pos()))
+					}
+					return true
+				})
+			}
+		}
+	}
+	suspects := map[*types.Var]string{}
+	for v, pos := range all {
+		name := v.Pkg().Path() + "." + v.Name()
+		si := siteInfo{File: pos.Filename, Line: pos.Line, Key: name, Kind: "global"}
+		if w, ok := why[v]; ok {
+			si.Done, si.Why = true, "modifiable after initialisation: "+w
+			suspects[v] = name
+		}
+		*sites = append(*sites, si)
+	}
+	sort.Slice(*sites, func(i, j int) bool {
+		a, b := (*sites)[i], (*sites)[j]
+		if a.File != b.File {
+			return a.File < b.File
+		}
+		return a.Line < b.Line
+	})
+	return gvars, suspects
+}
+
+// instrumentShared puts verifhook.Shared(name) before and after every statement (of a statement list) that mentions a
+// modifiable package-level variable outside nested blocks.
+func instrumentShared(p *packages.Package, f *ast.File, suspects map[*types.Var]string) bool {
+	if len(suspects) == 0 {
+		return false
+	}
+	changed := false
+	mentions := func(s ast.Stmt) string {
+		found := ""
+		ast.Inspect(s, func(n ast.Node) bool {
+			if found != "" {
+				return false
+			}
+			if _, nested := n.(*ast.BlockStmt); nested && n != ast.Node(s) {
+				return false
+			}
+			if _, lit := n.(*ast.FuncLit); lit {
+				return false
+			}
+			if id, ok := n.(*ast.Ident); ok {
+				if v, ok := p.TypesInfo.Uses[id].(*types.Var); ok {
+					if name, sus := suspects[v]; sus {
+						found = name
+					}
+				}
+			}
+			return true
+		})
+		return found
+	}
+	hook := func(name string) ast.Stmt {
+		return &ast.ExprStmt{X: &ast.CallExpr{Fun: &ast.SelectorExpr{X: ast.NewIdent("verifhook"), Sel: ast.NewIdent("Shared")}, Args: []ast.Expr{&ast.BasicLit{Kind: token.STRING, Value: fmt.Sprintf("%q", name)}}}}
+	}
+	for _, d := range f.Decls {
+		fd, ok := d.(*ast.FuncDecl)
+		if !ok || fd.Body == nil || (fd.Recv == nil && fd.Name.Name == "init") {
+			continue
+		}
+		astutil.Apply(fd.Body, nil, func(c *astutil.Cursor) bool {
+			st, ok := c.Node().(ast.Stmt)
+			if !ok || c.Index() < 0 {
+				return true
+			}
+			if es, ok := st.(*ast.ExprStmt); ok {
+				if call, ok := es.X.(*ast.CallExpr); ok {
+					if sel, ok := call.Fun.(*ast.SelectorExpr); ok {
+						if id, ok := sel.X.(*ast.Ident); ok && id.Name == "verifhook" && sel.Sel.Name == "Shared" {
+							return true
+						}
+					}
+				}
+			}
+			if _, blk := st.(*ast.BlockStmt); blk {
+				return true
+			}
+			if name := mentions(st); name != "" {
+				c.InsertBefore(hook(name))
+				switch st.(type) {
+				case *ast.ReturnStmt, *ast.BranchStmt:
+				default:
+					c.InsertAfter(hook(name))
+				}
+				changed = true
+			}
+			return true
+		})
+	}
+	return changed
 }
